@@ -1101,7 +1101,8 @@ func (vc *VC) strSub(s, lo, hi Term) Term {
 	vc.declare("str_sub", `(declare-fun str_sub (Str Int Int) Str)
 (assert (forall ((s Str) (lo Int) (hi Int)) (! (=> (and (<= 0 lo) (<= lo hi) (<= hi (slen s))) (= (slen (str_sub s lo hi)) (- hi lo))) :pattern ((str_sub s lo hi)))))
 (assert (forall ((s Str) (lo Int) (hi Int) (i Int)) (! (=> (and (<= 0 i) (< i (- hi lo))) (= (sat (str_sub s lo hi) i) (sat s (+ lo i)))) :pattern ((sat (str_sub s lo hi) i)))))
-(assert (forall ((s Str)) (! (= (str_sub s 0 (slen s)) s) :pattern ((str_sub s 0 (slen s))))))`)
+(assert (forall ((s Str)) (! (= (str_sub s 0 (slen s)) s) :pattern ((str_sub s 0 (slen s))))))
+(assert (forall ((s Str) (a Int) (b Int) (c Int) (d Int)) (! (=> (and (<= 0 a) (<= a b) (<= b (slen s)) (<= 0 c) (<= c d) (<= d (- b a))) (= (str_sub (str_sub s a b) c d) (str_sub s (+ a c) (+ a d)))) :pattern ((str_sub (str_sub s a b) c d)))))`)
 	return T(SStr, "(str_sub %s %s %s)", s.S, lo.S, hi.S)
 }
 
